@@ -6,7 +6,7 @@
            or `gray` when the outcome under budget B and under 16·B differ (an allocation request
            in the zone where the implementation's measured total may fall either side).
     gguf-layers <maxSeek> <hex>
-        -> what POST /api/create makes of an uploaded file: `err` | `loop` | `ok sizes=<n1,n2,…>` (one model layer per
+        -> what POST /api/create makes of an uploaded file: `err` | `loop` | `death` | `ok sizes=<n1,n2,…> media=<m|a|p,…>` (one model layer per
            GGUF found back to back in the file, with the bytes each layer gets)
 -/
 import OllamaVerif.Model.Gguf
@@ -35,10 +35,12 @@ def handle (toks : List String) : Option String :=
     runTP (do
       let maxSeek ← nat           -- the file system's largest seekable offset, measured by the driver
       let bs ← hex
-      pure (match ggufLayers bs none Guards.tree maxSeek with
+      pure (match createUpload bs none Guards.tree maxSeek with
         | none => "loop"
+        | some (.error (.panic _)) => "death"
         | some (.error _) => "err"
-        | some (.ok ls) => "ok sizes=" ++ joinWith "," (ls.map fun l => toString l.size))) rest
+        | some (.ok ls) => "ok sizes=" ++ joinWith "," (ls.map fun l => toString l.size)
+            ++ " media=" ++ joinWith "," (ls.map fun l => if l.media = 1 then "a" else if l.media = 2 then "p" else "m"))) rest
   | _ => none
 
 end Oracle.C10
